@@ -7,6 +7,7 @@ From Coq Require Import List Arith Bool NArith.
 From Conductor Require Import Model.Loader Model.Planner Model.Exec Model.RunCase
   Proofs.ExecInv Proofs.ExecTheorems Proofs.ExecMain Proofs.PlannerInv Proofs.PlannerExact Proofs.ComposeExec Proofs.ComposeStop Proofs.ExecStatus Proofs.ComposeStatus.
 From Conductor Require Import Proofs.WfPlanDec Proofs.ComposeKill.
+From Conductor Require Import Gen.Generated Proofs.GenTie.
 Import ListNotations.
 
 (* Scope notes.  (1) "The oracle fails an operation" = its launch raises a ConductorError, or its process ends with a
@@ -186,6 +187,30 @@ Example C03_sigterm_sweep_nonvacuous :
   evs_of (cond_run 50 k_tasks k_cfg) =
   [EStart 0 (Some 0); EStart 1 (Some 1); EStart 2 (Some 2); EFinish 1 0; EFinish 0 1; EKill [2]; EFailed [0] []].
 Proof. vm_compute. reflexivity. Qed.
+
+(* Tie to the sources, re-checked on every run: the decisions of the executor model the theorems above are about are the ones
+   TRANSLATED from executor.py / ops/operation.py of the working tree --
+   (1) a dequeued operation is SKIPPED (and handed to _process_finished_op) exactly when the translated test holds of "all
+       its execution dependencies succeeded" (exe_deps_succeeded = all(succeeded) over exe_deps);
+   (2) "succeeded" is the translated predicate on the operation's state;
+   (3) after a wait the run stops exactly when the translated `error_occurred and stop_on_first_error` holds;
+   (4) "Done!" is reported exactly when the translated verdict `all_succeeded and (main_task_executed or main_task_cached)`
+       holds of the completed operations -- otherwise the failure report, never "Done!". *)
+Theorem C03_executor_decisions_are_the_sources :
+  (forall p jobs stop orc s,
+     let o := fst (fst (dequeue s)) in
+     gen_skips (forallb (succeeded s) (exe_deps p o)) = true ->
+     trace (launch_one p jobs stop orc s) = ESkip o :: trace s /\ ost (launch_one p jobs stop orc s) o = SKIPPED) /\
+  (forall s o, succeeded s o = gen_op_succeeded (ostate_eqb (ost s o) SUCCEEDED) false) /\
+  (forall failed stop, gen_wait_stops failed stop = failed && stop) /\
+  (forall p root s,
+     let all_ok := forallb (succeeded s) (completed s) in
+     let main_exec := existsb (fun o => Nat.eqb (op_task (opi p o)) root) (completed s) in
+     let main_cached := match completed s with [] => mem root (p_cached p) | _ => false end in
+     (gen_verdict_done all_ok main_exec main_cached = true -> report p root s = [EDone; EKill (map fst (procs s))]) /\
+     (gen_verdict_done all_ok main_exec main_cached = false -> ~ In EDone (report p root s))).
+Proof. split; [exact skip_tie|]. split; [exact succeeded_tie|]. split; [exact wait_stop_tie|exact report_tie]. Qed.
+Print Assumptions C03_executor_decisions_are_the_sources.
 
 (* the example plan meets the hypothesis of the theorems above *)
 Example C03_example_plan_is_wf : wf_plan ex_plan.
